@@ -115,6 +115,109 @@ class ExtractSingle(Case):
         return [o(r[0]), text if isinstance(text, str) else None]
 
 
+class ReverseComplementLocated(Case):
+    """Sequence.reverse_complement of a sequence that sits on its parent at a single interval, symbolic text of ANY
+    length: base k of the result is the complement of base n-1-k, and the recorded location covers the same parent
+    positions on the OPPOSITE strand - so base k of the result is still the (complemented) parent base at the k-th
+    position of the recorded location.  Twice = identity on text and location."""
+    props = ("C03",)
+    name = "Sequence.reverse_complement[located on a single interval, symbolic text]"
+    func = "sequence.sequence.Sequence.reverse_complement"
+    call = "(lambda r: (r, r.reverse_complement(), r.parent.strand))(s.reverse_complement())"
+    ensures = {
+        "length": lambda i, r: And(r[0]._len == i.n, r[1]._len == i.n),
+        "k-th-base-is-complement-of-base-n-1-k": lambda i, r: Implies(
+            And(0 <= i.k, i.k < i.n), _char(r[0].sequence, i.k) == _comp_code(_char(i.text, i.n - 1 - i.k))),
+        "recorded-location-same-positions-opposite-strand": lambda i, r: And(
+            r[0].parent.location.start == i.loc.start, r[0].parent.location.end == i.loc.end,
+            Not(_same(r[0].parent.location.strand, i.loc.strand)),
+            _same(r[2], r[0].parent.location.strand)),
+        "twice-is-identity": lambda i, r: And(
+            Implies(And(0 <= i.k, i.k < i.n), _char(r[1].sequence, i.k) == _char(i.text, i.k)),
+            r[1].parent.location.start == i.loc.start, r[1].parent.location.end == i.loc.end,
+            _same(r[1].parent.location.strand, i.loc.strand)),
+    }
+
+    def inputs(self, S):
+        loc = single(S, "loc", directed=True)
+        text = S.symstr("text")
+        # a zero-length location is falsy (its truth value is its length): reverse_complement then drops it
+        S.assume(And(slen(text) == loc.end - loc.start, loc.start < loc.end))
+        par = S.new(PARENT, location=loc)
+        s = S.new(SEQUENCE, text, S.enum_const(ALPHABET, "NT_STRICT"), type="piece", parent=par)
+        return NS(s=s, loc=loc, text=text, n=slen(text), k=S.int("k"))
+
+    def samples(self, rng):
+        s0 = rng.randint(0, 6)
+        n = rng.randint(1, 7)
+        return dict(loc_start=s0, loc_end=s0 + n, loc_strand=rng.choice(["PLUS", "MINUS"]),
+                    text="".join(rng.choice("ACGT") for _ in range(n)), k=rng.randint(0, 6))
+
+    def observe(self, r):
+        from pyvc.check import default_observe as o
+        out = []
+        for x in r[:2]:
+            t = x.sequence if hasattr(x, "attrs") else str(x)
+            out.append([t if isinstance(t, str) else None, o(x.parent.location.start), o(x.parent.location.end),
+                        x.parent.location.strand.name if hasattr(x.parent.location.strand, "name") else None])
+        return out
+
+
+class AppendLocated(Case):
+    """Sequence.append of two pieces of one parent (each located on a single interval, same strand), symbolic texts of
+    ANY length: the text is the concatenation, the recorded location is the union of the two locations (exactly the
+    positions of the characters kept, in 5'->3' order); refused (ValueError, documented) when the second piece is not
+    downstream of the first on that strand."""
+    props = ("C03",)
+    name = "Sequence.append[two located pieces of one parent, symbolic texts]"
+    func = "sequence.sequence.Sequence.append"
+    call = "a.append(b)"
+    raises = {"ValueError": lambda i: If(i.plus, i.la.end > i.lb.start, i.la.start < i.lb.end)}
+    ensures = {
+        "length": lambda i, r: r._len == i.na + i.nb,
+        "k-th-character": lambda i, r: Implies(And(0 <= i.k, i.k < i.na + i.nb), _char(r.sequence, i.k) == If(
+            i.k < i.na, _char(i.ta, i.k), _char(i.tb, i.k - i.na))),
+        "recorded-location-is-the-union": lambda i, r: Iff(
+            _cov_loc(r.parent.location, i.p),
+            Or(And(i.la.start <= i.p, i.p < i.la.end), And(i.lb.start <= i.p, i.p < i.lb.end))),
+        "strand-kept": lambda i, r: _same(r.parent.location.strand, i.la.strand),
+    }
+
+    def inputs(self, S):
+        la = single(S, "la", directed=True)
+        lb = single(S, "lb", directed=True)
+        S.assume(enum_eq(la.strand, lb.strand) if hasattr(la.strand, "idx") else la.strand is lb.strand)
+        S.assume(And(la.start < la.end, lb.start < lb.end))
+        ta, tb = S.symstr("ta"), S.symstr("tb")
+        S.assume(And(slen(ta) == la.end - la.start, slen(tb) == lb.end - lb.start))
+        NT = S.enum_const(ALPHABET, "NT_STRICT")
+        a = S.new(SEQUENCE, ta, NT, type="piece", parent=S.new(PARENT, id="chr", location=la))
+        b = S.new(SEQUENCE, tb, NT, type="piece", parent=S.new(PARENT, id="chr", location=lb))
+        return NS(a=a, b=b, la=la, lb=lb, ta=ta, tb=tb, na=slen(ta), nb=slen(tb), k=S.int("k"), p=S.int("p"),
+                  plus=is_plus(la.strand))
+
+    def samples(self, rng):
+        s0 = rng.randint(0, 6)
+        n = rng.randint(1, 4)
+        s1 = rng.randint(0, 12)
+        m = rng.randint(1, 4)
+        st = rng.choice(["PLUS", "MINUS"])
+        return dict(la_start=s0, la_end=s0 + n, la_strand=st, lb_start=s1, lb_end=s1 + m, lb_strand=st,
+                    ta="".join(rng.choice("ACGT") for _ in range(n)), tb="".join(rng.choice("ACGT") for _ in range(m)),
+                    k=rng.randint(0, 7), p=rng.randint(0, 16))
+
+    def observe(self, r):
+        from pyvc.check import default_observe as o
+        from .c02_single import obs_loc
+        t = r.sequence if hasattr(r, "attrs") else str(r)
+        return [t if isinstance(t, str) else None, obs_loc(r.parent.location)]
+
+
+def _cov_loc(loc, p):
+    from .c02_single import covers_pos
+    return covers_pos(loc, p)
+
+
 class ExtractCompound(Case):
     """CompoundInterval.extract_sequence (blocks appended in strand order through Sequence.append) on a parent with
     symbolic text of ANY length, block count fixed: the i-th base is the parent base at the i-th mapped position of the
@@ -238,4 +341,4 @@ def _chrom_base(i, p):
     return plus_strand_base if i.plus else _comp_code(plus_strand_base)
 
 
-CASES = [SliceLocated(), ExtractSingle(), ExtractCompound(2), ExtractCompound(3), SplicedOnChunk(1), SplicedOnChunk(2)]
+CASES = [SliceLocated(), ReverseComplementLocated(), AppendLocated(), ExtractSingle(), ExtractCompound(2), ExtractCompound(3), SplicedOnChunk(1), SplicedOnChunk(2)]
